@@ -2,6 +2,7 @@ package main
 
 import (
 	"bytes"
+	"crypto/sha1"
 	"errors"
 	"fmt"
 	"math"
@@ -64,6 +65,7 @@ type lsmRun struct {
 	touched           map[string]map[uint64]bool // base key -> versions written
 	keys              []string                   // order of first touch
 	nontriv           bool
+	bigMem            bool
 	next              map[string]uint64
 	commitAfterReopen bool
 	c                 *corr.Ctx
@@ -87,7 +89,22 @@ func openOpts(dir, engine string) *NoKV.Options {
 }
 
 func (r *lsmRun) open() {
-	r.db = NoKV.Open(openOpts(r.dir, r.engine))
+	opt := openOpts(r.dir, r.engine)
+	if r.bigMem {
+		opt.MemTableSize = 64 << 20
+		opt.SSTableMaxSz = 8 << 20
+	}
+	r.db = NoKV.Open(opt)
+}
+
+// vrepr is how a value appears in the emitted terms: values longer than 64 bytes
+// are replaced by an 8-byte prefix and their SHA-1 (the model treats values opaquely).
+func vrepr(v []byte) []byte {
+	if len(v) <= 64 {
+		return v
+	}
+	sum := sha1.Sum(v)
+	return append(append([]byte{}, v[:8]...), sum[:]...)
 }
 
 func baseKey(cf kv.ColumnFamily, user []byte) []byte {
@@ -130,8 +147,8 @@ func (r *lsmRun) put(cf kv.ColumnFamily, user []byte, ver uint64, val []byte, de
 	}
 	bk := baseKey(cf, user)
 	r.seq++
-	r.emit(fmt.Sprintf("XPut (Rc %s %d %s %d 0 %d)", corr.Hex(bk), ver, corr.Hex(val), meta, r.seq),
-		fmt.Sprintf("put cf=%d key=%q ver=%d val=%q del=%v plain=%v", cf, user, ver, val, del, plain))
+	r.emit(fmt.Sprintf("XPut (Rc %s %d %s %d 0 %d)", corr.Hex(bk), ver, corr.Hex(vrepr(val)), meta, r.seq),
+		fmt.Sprintf("put cf=%d key=%q ver=%d val=%q del=%v plain=%v", cf, user, ver, vrepr(val), del, plain))
 	s := string(bk)
 	if r.touched[s] == nil {
 		r.touched[s] = map[uint64]bool{}
@@ -167,7 +184,7 @@ func (r *lsmRun) readAll(plain bool) {
 			e, err := r.db.GetVersionedEntry(cf, user, v)
 			obs := "None"
 			if err == nil && e != nil {
-				obs = fmt.Sprintf("(Some (%s, %d))", corr.Hex(e.Value), e.Meta)
+				obs = fmt.Sprintf("(Some (%s, %d))", corr.Hex(vrepr(e.Value)), e.Meta)
 			} else if err != nil && !errors.Is(err, utils.ErrKeyNotFound) {
 				obs = fmt.Sprintf("(Some (\"\", 255)) (* error %s *)", strings.ReplaceAll(err.Error(), "*)", "* )"))
 			}
@@ -177,7 +194,7 @@ func (r *lsmRun) readAll(plain bool) {
 			e, err := r.db.GetCF(cf, user)
 			obs := "None"
 			if err == nil && e != nil {
-				obs = "(Some " + corr.Hex(e.Value) + ")"
+				obs = "(Some " + corr.Hex(vrepr(e.Value)) + ")"
 			}
 			r.emit(fmt.Sprintf("GP %s %s", corr.Hex([]byte(s)), obs), fmt.Sprintf("get cf=%d key=%q -> %s", cf, user, obs))
 		}
@@ -389,7 +406,7 @@ func (r *lsmRun) snapshotReads() map[string]string {
 			e, err := r.db.GetVersionedEntry(cf, user, v)
 			obs := "None"
 			if err == nil && e != nil {
-				obs = fmt.Sprintf("(Some (%s, %d))", corr.Hex(e.Value), e.Meta)
+				obs = fmt.Sprintf("(Some (%s, %d))", corr.Hex(vrepr(e.Value)), e.Meta)
 			}
 			out[fmt.Sprintf("%s %d", corr.Hex([]byte(s)), v)] = obs
 		}
@@ -571,6 +588,8 @@ func (r *lsmRun) program(p lsmProfile) {
 
 // scripted regression programs, run before the random ones
 var lsmScripts = map[string][]string{
+	// one key with more versions (bytes) than an output table may hold: compaction must not split a key's versions over two tables
+	"hot_key": {"putv a 1 1", "big h 1", "big h 2", "big h 3", "big h 4", "big h 5", "big h 6", "big h 7", "big h 8", "big h 9", "big h 10", "big h 11", "big h 12", "putv z 1 2", "rotate", "flush", "move", "drain", "read", "reopen", "read"},
 	// newest versions live only in an ingest buffer when the DB is reopened: the next commit timestamp must still exceed them
 	"ingest_reopen": {"putv a 5 1", "putv b 9 2", "rotate", "flush", "move", "reopen", "read", "commit", "read", "reopen", "read"},
 	// an expired overwrite that only lives in the WAL must survive reopen (it shadows the older flushed value)
@@ -607,6 +626,11 @@ func (r *lsmRun) script(steps []string, plain bool) {
 			var ver uint64
 			fmt.Sscan(f[2], &ver)
 			_ = r.put(kv.CFDefault, []byte(f[1]), ver, []byte("v"+f[3]), false, false)
+		case "big":
+			var ver uint64
+			fmt.Sscan(f[2], &ver)
+			v := bytes.Repeat([]byte(f[1]+f[2]+"|"), 900*1024/(len(f[1])+len(f[2])+1))
+			_ = r.put(kv.CFDefault, []byte(f[1]), ver, v, false, false)
 		case "rotate":
 			r.rotate()
 			maint++
@@ -638,7 +662,7 @@ func runScriptLsm(c *corr.Ctx, name string, plain bool) {
 		panic(err)
 	}
 	defer os.RemoveAll(dir)
-	r := &lsmRun{dir: dir, engine: "skiplist", touched: map[string]map[uint64]bool{}, next: map[string]uint64{}, c: c, now: uint64(time.Now().Unix())}
+	r := &lsmRun{dir: dir, engine: "skiplist", bigMem: name == "hot_key", touched: map[string]map[uint64]bool{}, next: map[string]uint64{}, c: c, now: uint64(time.Now().Unix())}
 	flushGate.setOpen(false)
 	r.open()
 	first := r.layout().Active.SegmentID
@@ -687,7 +711,7 @@ func runLsm(c *corr.Ctx) error {
 			runScriptLsm(c, name, false)
 		}
 	} else {
-		for _, name := range []string{"order", "mono", "l0_tie", "drain_overlap", "ingest_over_main"} {
+		for _, name := range []string{"order", "mono", "l0_tie", "drain_overlap", "ingest_over_main", "hot_key"} {
 			runScriptLsm(c, name, false)
 		}
 	}
